@@ -122,6 +122,25 @@ func Use() int { return len(Bytes("ab")) + len(Text([]byte("c"))) }
 		{"editor-droppings", map[string]string{"ed/.#main.go": "->user@host.1234:1700000000", "ed/_scratch.go": fn("ed", "Scratch"), "ed/main.go": fn("ed", "EdMain"), "ed/zlast.go": fn("ed", "ZLast")}},
 		{"symlinked-sources", map[string]string{".store/impl_real.go": fn("plug", "Impl"), ".store/more_real.go": fn("plug", "More"),
 			"plug/impl.go": "->../.store/impl_real.go", "plug/more.go": "->../.store/more_real.go"}},
+		{"range-over-func", map[string]string{"rf/rf.go": `package rf
+
+func seq(yield func(int) bool) {
+	for i := 0; i < 3; i++ {
+		if !yield(i) {
+			return
+		}
+	}
+}
+
+func Sum() int {
+	t := 0
+	for v := range seq {
+		f := func(k int) int { return k * 2 }
+		t += f(v)
+	}
+	return t
+}
+`}},
 		{"dotted-dir-names", map[string]string{"v1.2/api.go": fn("api", "Api"), "a.b/c..d/e.go": fn("e", "E"), "..weird/w.go": fn("w", "W")}},
 	}
 }
